@@ -59,7 +59,19 @@ func quiescent(s *Sim, tq int64) []string {
 				starts = append(starts, tk)
 			}
 			sort.Ints(starts)
-			if !blocked && len(starts) > K && s.mon.initSince[id] < starts[len(starts)-1-K] {
+			// a task whose hand-off keeps failing (undeliverable receiver) is being dispatched, cycle after cycle; the
+			// tasks of its root queue up behind it ("while hand-offs succeed" does not hold for that root)
+			retried := len(starts) > K && s.mon.attemptTick[id] >= starts[len(starts)-1-K]
+			// ... and so does everything else when the dispatch order keeps handing the cycle the same undeliverable
+			// task (batch size 1): the rule is stated for "while hand-offs succeed", so any recently failed hand-off
+			// suspends it
+			for sid, sib := range snap.T {
+				if sib.State == 1 && sid != id && len(starts) > K && s.mon.attemptTick[sid] >= starts[len(starts)-1-K] {
+					retried = true
+					s.mon.hit("converge.undispatched-rule-suspended-handoffs-failing")
+				}
+			}
+			if !blocked && !retried && len(starts) > K && s.mon.initSince[id] < starts[len(starts)-1-K] {
 				bad = append(bad, fmt.Sprintf("task-undispatched:dispatchable task %s (root %s, timeout %d) has been waiting in init for more than %d dispatch cycles", id, t.Root, t.Timeout, K))
 			}
 		}
@@ -126,7 +138,8 @@ func init() {
 				var tags map[string]string
 				switch r.Intn(4) {
 				case 0:
-					tags = map[string]string{"resonate:invoke": pick(r, "poll://default/w", "default", `{"type":"poll","data":{"group":"g"}}`)}
+					// "nowhere" is a logical name no target is configured for: its hand-off fails on every cycle, for ever
+					tags = map[string]string{"resonate:invoke": pick(r, "poll://default/w", "default", `{"type":"poll","data":{"group":"g"}}`, "nowhere")}
 				case 1:
 					tags = map[string]string{"resonate:timeout": "true"}
 				}
@@ -157,8 +170,19 @@ func init() {
 					s.Submit("u", reqComplete(fmt.Sprintf("p%d", i), nil, false, promise.Resolved, "v"))
 				}
 			}
-			for id, t := range s.snap.T {
-				if r.Intn(3) == 0 {
+			// (the tasks born from these completions must exist before they can be claimed)
+			s.Tick(s.now + 1)
+			if !s.Drain(1, 3000) {
+				c.Rep.Inconclusive++
+				return
+			}
+			var tids []string
+			for id := range s.snap.T {
+				tids = append(tids, id)
+			}
+			sort.Strings(tids)
+			for _, id := range tids {
+				if t := s.snap.T[id]; r.Intn(3) == 0 {
 					s.Submit("w", reqClaim(id, t.Counter, "proc", pick(r, 0, 2, 50, 1000000)))
 				}
 			}
@@ -166,6 +190,15 @@ func init() {
 			if !s.Drain(1, 3000) {
 				c.Rep.Inconclusive++
 				return
+			}
+			// holders that renew their leases once before they fall silent (a lease may then reach beyond the task's timeout)
+			if r.Intn(2) == 0 {
+				s.Submit("w", reqHeartbeatTasks("proc"))
+				s.Tick(s.now + 1)
+				if !s.Drain(1, 3000) {
+					c.Rep.Inconclusive++
+					return
+				}
 			}
 			// phase 2: clients fall silent; the clock jumps; a fresh server (new configuration
 			// of the same grid) runs background cycles under a finite failure prefix
@@ -200,7 +233,14 @@ func init() {
 				}
 				return m
 			}
-			budget := 80*B + 400
+			// the kernel also ticks between two periods (every completion signals it): the clock advances by less than a
+			// period per tick in some runs, so that "a period has passed since the last start" is a real condition
+			step := s.cfg.BgPeriod
+			if step > 1 && r.Intn(2) == 0 {
+				step = 1
+			}
+			ratio := int(s.cfg.BgPeriod / step)
+			budget := (80*B + 400) * ratio
 			lastProgress, lastMin := 0, 0
 			stalled := false
 			for i := 0; i < budget; i++ {
@@ -210,7 +250,7 @@ func init() {
 					s.pol.PSendFalse, s.pol.PSendErr, s.pol.PSendFull = 0, 0, 0
 					fails = -fails
 				}
-				s.Tick(tq + int64(i)*s.cfg.BgPeriod)
+				s.Tick(tq + int64(i)*step)
 				mc := minCycles()
 				if mc > lastMin {
 					lastMin, lastProgress = mc, i
@@ -218,7 +258,7 @@ func init() {
 				if mc >= B {
 					break
 				}
-				if i-lastProgress > 400 {
+				if i-lastProgress > 400*ratio {
 					stalled = true
 					break
 				}
